@@ -11,7 +11,9 @@ CLAIMED = {
         level="model_checking",
         text="Explicit-state BFS over all histories of ConstPool::add up to the stated depth, executed on the real "
              "ConstPool; alignment, stability, dedup, overlap, fill() image, guard bands and embed_const_pool are "
-             "evaluated in every reached state. Exhaustive within alphabet and depth.",
+             "evaluated in every reached state. Exhaustive within alphabet and depth. Leg 2 (harness/c19_compiler.cpp): every sequence (length <= 4 quick / 5 thorough) of "
+             "BaseCompiler::_new_const requests (local and global scope, 6 valid and 3 rejected sizes) and function boundaries on x86 and AArch64 Compilers, finalized; every "
+             "returned operand must be bound, aligned, inside the code and hold the constant, and identical requests in one pool share the operand.",
         note="Trusts the harness reference (a list of added constants) and the 3-pattern data alphabet; deeper histories than the bound are not covered.",
         technique="explicit-state BFS over operation histories on the implementation, canonical-state dedup, reference-model oracle",
         design_ref="3/C19"),
@@ -148,11 +150,13 @@ CLAIMED["C06"] = dict(
     level="exploration",
     text="(a) all signatures of length <=4 (quick) / <=5 (thorough) over 20 argument types and, for lengths 6..32, three default signatures with <=2 deviating positions, "
          "x every calling convention id of 8 targets x varargs x return types, judged by reference classifiers written from the psABIs / Microsoft / Apple documents; a "
-         "sanitizer leg; and an executed interop leg on the host (asmjit caller <-> clang-compiled C callee for SysV, Win64 and vectorcall, 46 signatures, both directions). "
+         "sanitizer leg; and an executed interop leg on the host (SysV, Win64 and vectorcall, 46 signatures: hand-placed asmjit caller <-> clang-compiled C callee in both directions, "
+         "plus x86::Compiler invoke() -> C callee (by-reference arguments as values and as pointers) and C caller -> x86::Compiler function, each at the four 16-byte stack alignments mod 64). "
          "(b) every assignment of <=3 (thorough 4) arguments of 10 type/widening kinds to {own register, register of any other argument (all permutation cycles), two foreign "
-         "registers, a stack slot} for 6 conventions: emit_prolog + emit_args_assignment are interpreted by the msim node simulator and every destination must hold its argument.",
+         "registers, a stack slot} for 6 conventions (plain frames, dynamically aligned frames, and a family whose float arguments arrive on the stack while the first one is in a register): "
+         "emit_prolog + emit_args_assignment are interpreted by the msim node simulator with a token set and its bitwise complement, and every destination must hold its argument.",
     note="Cases where compilers disagree or the ABI is silent (mmx/mask arguments, f80 on Microsoft targets, ...) are counted as undecided; x86-32/AArch64 shuffles are simulated, "
-         "not executed; known findings: integer widening to a wider destination type is not applied on AArch64 and for stack destinations.",
+         "not executed; incoming by-reference arguments of Compiler functions are refused by asmjit with an error (documented as not supported) and counted as refused.",
     technique="exhaustive enumeration of signatures x conventions and of argument assignments (full product within bounds) with reference ABI classifiers, a real compiler and a machine-state simulator as oracles",
     design_ref="3/C06", engine="harness/c06_abi.cpp")
 
@@ -219,7 +223,8 @@ CLAIMED["C14"] = dict(
          "instruction id x operand patterns from a weird-operand alphabet (ids out of range, wrong groups, invalid labels, segment 7, vector index, undefined option bits, bad extra "
          "register, element types, huge sizes) + invalid bind/align/embed/section/label calls + valid predecessors/successors; every call judged on the spot (return code, handler "
          "count, holder state before/after, one-shot state) and differentially against a twin that receives only the accepted calls; unrepresentable operands carry a must-reject reason; "
-         "accepted bytes are decoded by objdump/llvm-mc (exactly one instruction, no unrequested component). Each unit runs in a forked child under ASan/UBSan with a CPU watchdog. "
+         "accepted bytes are decoded by objdump/llvm-mc (exactly one instruction, no unrequested component); a family with a known base address and absolute targets (16 forms x distances around "
+         "every field limit and at 2^31..2^39) whose accepted encodings are decoded back to the requested target. Each unit runs in a forked child under ASan/UBSan with a CPU watchdog. "
          "Leg 2 (harness/c14_faultstate.cpp): calls that fail because the k-th heap / arena request fails (every k) x handler kinds x one-shot decorations x buffer-growth position: "
          "nothing appended, one-shot state cleared, image equal to a fresh twin given the accepted calls.",
     note="The alphabet of invalid values is finite (chosen per field boundary); combinations of more than two invalid fields per call are not explored.",
